@@ -7,6 +7,7 @@ mod s_connexp;
 mod s_date;
 mod s_headers;
 mod s_parse;
+mod s_pool;
 mod s_printer;
 mod s_router;
 mod util;
@@ -29,6 +30,7 @@ fn main() {
             "headers" => s_headers::run(&a[3]),
             "parse" => s_parse::run_parse(&a[3]),
             "body" => s_body::run(&a[3]),
+            "pool" => s_pool::run(&a[3]),
             "printer" => s_printer::run(&a[3]),
             "conn" => s_conn::run(&a[3]),
             "readloop" => s_conn::run_readloop(&a[3]),
@@ -55,6 +57,7 @@ fn main() {
         "headers" => s_headers::gen(&ctx),
         "parse" => s_parse::gen_parse(&ctx),
         "body" => s_body::gen(&ctx),
+        "pool" => s_pool::gen(&ctx),
         "printer" => s_printer::gen(&ctx),
         "readloop" => s_conn::gen_readloop(&ctx),
         "conn05" => s_connexp::gen05(&ctx),
